@@ -280,6 +280,16 @@ func TestC14(t *testing.T) {
 		}
 	})
 
+	wc := wordColliders()
+	c.rec.Extra["hash_collision_words"] = len(wc)
+	p = c.rec.NewPart("hash_collision_identifiers", fmt.Sprintf("%d benign identifiers whose 32-bit hash (FNV-1a, FNV-1, CRC-32, CRC-32C, djb2, djb2-xor, x31, sdbm; of the upper-cased or of the lower-cased word) equals that of one of %d keyword-table words of every token type, found by meeting in the middle at run time, x %d sentence templates", len(wc), len(colliderTargets()), len(tmpl)), false, true, "")
+	c.ParRange(p, int64(len(wc)), func(w *Worker, i int64) {
+		for _, t := range tmpl {
+			w.Judge(ev.Case{Kind: "words", In: strings.ReplaceAll(t, "W", wc[i].Word)})
+			w.Judge(ev.Case{Kind: "words", In: strings.ReplaceAll(t, "W", gen.UpperASCII(wc[i].Word))})
+		}
+	})
+
 	// long identifiers of every length 1..80 that end in, start with or contain a keyword
 	var longIDs []string
 	for n := 1; n <= 80; n++ {
